@@ -18,48 +18,68 @@ VARIABLES g,             \* G: the grammar being explored ("" in M/S)
 allvars == <<req, cache, last, g, h>>
 
 (* ---------------------------------------------------------------- alphabets and bounds *)
-Grammars == {"range", "clen", "etag", "fwd", "xff", "host"}
-HdrOf == ("range" :> "range") @@ ("clen" :> "content-length") @@ ("etag" :> "if-none-match") @@
+Grammars == {"range", "rset", "clen", "etag", "fwd", "xff", "host"}     \* rset: the range-set after "bytes="
+HdrOf == ("range" :> "range") @@ ("rset" :> "range") @@ ("clen" :> "content-length") @@ ("etag" :> "if-none-match") @@
          ("fwd" :> "forwarded") @@ ("xff" :> "x-forwarded-for") @@ ("host" :> "host")
-GAttrs == ("range" :> <<"range", "range_unit">>) @@ ("clen" :> <<"content_length">>) @@
+GAttrs == ("range" :> <<"range", "range_unit">>) @@ ("rset" :> <<"range", "range_unit">>) @@ ("clen" :> <<"content_length">>) @@
           ("etag" :> <<"if_none_match">>) @@
           ("fwd" :> <<"forwarded", "access_route", "forwarded_scheme", "forwarded_host", "forwarded_uri">>) @@
           ("xff" :> <<"access_route">>) @@
           ("host" :> <<"host", "port", "netloc", "subdomain", "uri", "forwarded_host">>)
 Alpha == ("range" :> {"bytes", "items", "=", "-", ",", SP, "x", "0", "1", "8"}) @@
+         ("rset"  :> {"0", "1", "8", "-", ",", SP, "x"}) @@
          ("clen"  :> {"0", "1", "8", "-", "+", SP, ",", "x", "_"}) @@
          ("etag"  :> ETagTokens) @@
-         ("fwd"   :> {"for=192.0.2.43", "For=\"[2001:db8::1]:4711\"", "for=\"_gazonk\"", "for=127.0.0.1",
+         ("fwd"   :> {"for=192.0.2.43", "For=\"[2001:db8::1]:4711\"", "for=\"_gazonk\"", "for=127.0.0.1", "for=\"198.51.100.17:_p0\"",
                       "BY=\"_a\\_b\"", "Host=\"h.example.org:8443\"", "PROTO=HTTPS", "proto=http", "ext=1",
                       ";", ",", SP, "@", "for"}) @@
          ("xff"   :> XffTokens) @@
          ("host"  :> {"localhost", "example.com", "api.", "abc", "192.0.2.7", "[::1]", "[2001:db8::1]",
                       "8", "0", "4", ":", "[", "]", SP})
 
-BoundsTiny == ("range" :> 2) @@ ("clen" :> 2) @@ ("etag" :> 2) @@ ("fwd" :> 2) @@ ("xff" :> 2) @@ ("host" :> 2)
-BoundsQ  == ("range" :> 4) @@ ("clen" :> 4) @@ ("etag" :> 4) @@ ("fwd" :> 3) @@ ("xff" :> 4) @@ ("host" :> 4)
-BoundsT  == ("range" :> 6) @@ ("clen" :> 6) @@ ("etag" :> 5) @@ ("fwd" :> 5) @@ ("xff" :> 6) @@ ("host" :> 5)
-BoundsEQ == ("range" :> 4) @@ ("clen" :> 3) @@ ("etag" :> 3) @@ ("fwd" :> 3) @@ ("xff" :> 3) @@ ("host" :> 3)
-BoundsET == ("range" :> 5) @@ ("clen" :> 5) @@ ("etag" :> 4) @@ ("fwd" :> 4) @@ ("xff" :> 5) @@ ("host" :> 4)
+BoundsTiny == ("range" :> 2) @@ ("rset" :> 3) @@ ("clen" :> 2) @@ ("etag" :> 2) @@ ("fwd" :> 2) @@ ("xff" :> 2) @@ ("host" :> 2)
+BoundsQ  == ("range" :> 4) @@ ("rset" :> 6) @@ ("clen" :> 4) @@ ("etag" :> 4) @@ ("fwd" :> 3) @@ ("xff" :> 4) @@ ("host" :> 3)
+BoundsT  == ("range" :> 5) @@ ("rset" :> 7) @@ ("clen" :> 5) @@ ("etag" :> 5) @@ ("fwd" :> 4) @@ ("xff" :> 6) @@ ("host" :> 4)
+BoundsET == ("range" :> 5) @@ ("rset" :> 7) @@ ("clen" :> 5) @@ ("etag" :> 4) @@ ("fwd" :> 4) @@ ("xff" :> 5) @@ ("host" :> 4)
 
 NoHeaders == [n \in HNames |-> Absent]
 Base(scheme) == [scheme |-> scheme, server |-> <<"srv.test", 8000>>, peer |-> "127.0.0.1",
                  root |-> "", path |-> "/", query |-> "", h |-> NoHeaders]
 
+(* TLC's -coverage cost model does not terminate in reasonable time/memory on this module (nested
+   operator applications under a 20-arm CASE), so the vacuity guard counts action firings itself:
+   every named action bumps a TLC register and the C configs (run with ONE worker, so the registers
+   are exact) print the counts in a POSTCONDITION as <<"FIRED", action, count>>. *)
+ActionNames == <<"XRange", "XRSet", "XCLen", "XETag", "XFwd", "XXff", "XHost",
+                 "XReadUri", "XReadForwardedUri", "XReadRelativeUri", "XReadPrefix", "XReadForwardedPrefix",
+                 "XReadForwarded", "XReadAccessRoute", "XReadETags", "XReadPlain", "XGetHeader">>
+ActIdx(n) == CHOOSE i \in 1..Len(ActionNames) : ActionNames[i] = n
+Bump(n) == TLCSet(ActIdx(n), TLCGet(ActIdx(n)) + 1)
+ZeroCounters == \A i \in 1..Len(ActionNames) : TLCSet(i, 0)
+PrintCounters == \A i \in 1..Len(ActionNames) : PrintT(<<"FIRED", ActionNames[i], TLCGet(i)>>)
+(* the vocabulary, for the harness' random generator (so that it is not written down twice) *)
+PrintVocab == PrintT(ToJson([vocab |-> [range |-> RangeTokens, clen |-> CLenTokens, etag |-> ETagTokens, fwd |-> FwdTokens,
+                                        xff |-> XffTokens, host |-> HostTokens, addr |-> AddrTokens, xfh |-> XfhToks,
+                                        xfp |-> DOMAIN XfpVal, qtags |-> QTags, fwdpairs |-> FwdPairs],
+                             attrs |-> Attrs, hnames |-> HNames]))
+PostG == PrintCounters /\ PrintVocab
+
 (* ----------------------------------------------------------------------- G instances *)
 GInit == /\ g \in Grammars
-         /\ req \in {Base(s) : s \in IF g = "host" THEN Schemes ELSE {"http"}}
-         /\ cache = EmptyCache /\ last = NoCall /\ h = <<>>
+         /\ req \in {IF g = "rset" THEN [Base(s) EXCEPT !.h["range"] = Hdr(<<"bytes", "=">>)] ELSE Base(s) :
+                         s \in IF g = "host" THEN Schemes ELSE {"http"}}
+         /\ cache = EmptyCache /\ last = NoCall /\ h = <<>> /\ ZeroCounters
 Grow(gr) == /\ g = gr /\ Len(req.h[HdrOf[gr]].t) < Bounds[gr]
             /\ \E t \in Alpha[gr] : Extend(HdrOf[gr], t)
             /\ UNCHANGED <<g, h>>
-XRange == Grow("range")
-XCLen  == Grow("clen")
-XETag  == Grow("etag")
-XFwd   == Grow("fwd")
-XXff   == Grow("xff")
-XHost  == Grow("host")
-GNext == XRange \/ XCLen \/ XETag \/ XFwd \/ XXff \/ XHost
+XRange == Grow("range") /\ Bump("XRange")
+XRSet  == Grow("rset") /\ Bump("XRSet")
+XCLen  == Grow("clen") /\ Bump("XCLen")
+XETag  == Grow("etag") /\ Bump("XETag")
+XFwd   == Grow("fwd") /\ Bump("XFwd")
+XXff   == Grow("xff") /\ Bump("XXff")
+XHost  == Grow("host") /\ Bump("XHost")
+GNext == XRange \/ XRSet \/ XCLen \/ XETag \/ XFwd \/ XXff \/ XHost
 
 (* decision-table export: one JSON object per header value *)
 EmitG == LET hd == req.h[HdrOf[g]] IN
@@ -90,11 +110,17 @@ ReqsSmall == {Mk(s, ho, "/app", "x=1", f, xp, xh, Absent, ri) :
                 s \in {"https"}, ho \in {Absent, Hdr(<<"api.", "example.com", ":", "8", "0", "8", "0">>)},
                 f \in FwdChoices, xp \in {Absent, Hdr(<<"HTTPS">>)}, xh \in {Absent, Hdr(<<"proxy.example:8443">>)},
                 ri \in {Absent, Hdr(<<"192.0.2.1">>)}}
+ReqsTiny == {Mk("https", ho, "/app", "x=1", fx[1], fx[2], Absent, Absent, Absent) :
+                ho \in {Absent, Hdr(<<"api.", "example.com", ":", "8", "0", "8", "0">>)},
+                fx \in ({f \in FwdChoices : f.p /\ f.t # <<"BY=\"_a\\_b\"">>} \X {Absent})
+                       \cup {<<Absent, Absent>>, <<Absent, Hdr(<<"HTTPS">>)>>}}
+ReqsOne == {Mk("https", Absent, "/app", "x=1", Hdr(<<"for=192.0.2.43", ";", "PROTO=HTTPS", ";", "host=example.org">>), Absent, Absent, Absent, Absent)}
 UrlAttrs == {"uri", "forwarded_uri", "relative_uri", "prefix", "forwarded_prefix", "forwarded", "access_route",
              "forwarded_scheme", "forwarded_host", "netloc", "host", "port"}
-LookupNames == {"host", "forwarded", "range", "x-real-ip"}
+MidAttrs == UrlAttrs \cup {"if_none_match", "subdomain", "range"}
+LookupNames == {"host", "forwarded"}
 
-MInit == g = "" /\ h = <<>> /\ req \in ReqSet /\ cache = EmptyCache /\ last = NoCall
+MInit == g = "" /\ h = <<>> /\ req \in ReqSet /\ cache = EmptyCache /\ last = NoCall /\ ZeroCounters
 Keep  == UNCHANGED <<g, h>>
 Log   == Len(h) < Depth /\ h' = Append(h, last') /\ UNCHANGED g
 Plain == ReadAttrs \ CachedAttrs
@@ -108,16 +134,16 @@ RAccessRoute(K)     == Read("access_route") /\ K
 RETags(K)           == (\E a \in {"if_match", "if_none_match"} \cap ReadAttrs : Read(a)) /\ K
 RPlain(K)           == (\E a \in Plain : Read(a)) /\ K
 RGetHeader(K)       == (\E n \in LookupNames, c \in Casings : GetHeader(n, c)) /\ K
-XReadUri == RUri(Keep)
-XReadForwardedUri == RForwardedUri(Keep)
-XReadRelativeUri == RRelativeUri(Keep)
-XReadPrefix == RPrefix(Keep)
-XReadForwardedPrefix == RForwardedPrefix(Keep)
-XReadForwarded == RForwarded(Keep)
-XReadAccessRoute == RAccessRoute(Keep)
-XReadETags == RETags(Keep)
-XReadPlain == RPlain(Keep)
-XGetHeader == RGetHeader(Keep)
+XReadUri == RUri(Keep) /\ Bump("XReadUri")
+XReadForwardedUri == RForwardedUri(Keep) /\ Bump("XReadForwardedUri")
+XReadRelativeUri == RRelativeUri(Keep) /\ Bump("XReadRelativeUri")
+XReadPrefix == RPrefix(Keep) /\ Bump("XReadPrefix")
+XReadForwardedPrefix == RForwardedPrefix(Keep) /\ Bump("XReadForwardedPrefix")
+XReadForwarded == RForwarded(Keep) /\ Bump("XReadForwarded")
+XReadAccessRoute == RAccessRoute(Keep) /\ Bump("XReadAccessRoute")
+XReadETags == RETags(Keep) /\ Bump("XReadETags")
+XReadPlain == RPlain(Keep) /\ Bump("XReadPlain")
+XGetHeader == RGetHeader(Keep) /\ Bump("XGetHeader")
 MNext == XReadUri \/ XReadForwardedUri \/ XReadRelativeUri \/ XReadPrefix \/ XReadForwardedPrefix
          \/ XReadForwarded \/ XReadAccessRoute \/ XReadETags \/ XReadPlain \/ XGetHeader
 SReadUri == RUri(Log)
